@@ -639,19 +639,26 @@ pub fn check_c09(v: &View) -> Findings {
         }
         prev = e.at_byte_offset();
     }
-    // missing-expected errors <-> zero-width recovery tokens
+    // missing-expected errors <-> zero-width recovery tokens (linear: hash maps keyed by
+    // (kind/type, offset))
+    use std::collections::HashMap;
+    let mut err_at: HashMap<(u16, usize), usize> = HashMap::new();
+    for e in errs {
+        if expected_symbol(e.error_kind()).is_some() {
+            *err_at.entry((e.error_kind() as u16, e.at_byte_offset() as usize)).or_insert(0) += 1;
+        }
+    }
+    let mut tok_at: HashMap<(u16, usize), usize> = HashMap::new();
+    for t in &v.toks {
+        if t.b0 == t.b1 && missing_kind(t.ty).is_some() {
+            *tok_at.entry((t.ty as u16, t.b0)).or_insert(0) += 1;
+        }
+    }
     for e in errs {
         let Some(tt) = expected_symbol(e.error_kind()) else { continue };
         let o = e.at_byte_offset() as usize;
-        let n_err = errs
-            .iter()
-            .filter(|x| x.error_kind() == e.error_kind() && x.at_byte_offset() as usize == o)
-            .count();
-        let n_tok = v
-            .toks
-            .iter()
-            .filter(|t| t.ty == tt && t.b0 == o && t.b1 == o)
-            .count();
+        let n_err = err_at.get(&(e.error_kind() as u16, o)).copied().unwrap_or(0);
+        let n_tok = tok_at.get(&(tt as u16, o)).copied().unwrap_or(0);
         if n_err > n_tok {
             f.push(Finding::new(
                 "C09.recovery",
@@ -673,11 +680,7 @@ pub fn check_c09(v: &View) -> Findings {
         if t.ty == TokenType::SEMI && t.b0 == n {
             continue; // end-of-input semicolon
         }
-        // the last token's b1 == b0 by construction; only EOF is last
-        let has = errs
-            .iter()
-            .any(|x| x.error_kind() == kind && x.at_byte_offset() as usize == t.b0);
-        if !has {
+        if !err_at.contains_key(&(kind as u16, t.b0)) {
             f.push(Finding::new(
                 "C09.recovery",
                 &format!("{:?}|no-error", t.ty),
